@@ -310,6 +310,11 @@ class Ctx:
             'disagreements_checked': len(self.violations),
         }
         cov.update(self.extra)
+        # the evidence schema knows the plain categories only; qualifiers such as "(partial)" go to coverage
+        LEVELS = ('exploration', 'fault_enumeration', 'model_checking', 'proof', 'translation_validation', 'other')
+        if self.level not in LEVELS:
+            cov['level_qualifier'] = self.level
+            self.level = next((l for l in LEVELS if str(self.level).startswith(l)), 'other')
         ev = {'property_id': self.pid, 'tier': self.tier, 'seed': self.seed, 'level': self.level,
               'coverage': cov, 'assumptions': self.assumptions, 'wall_s': round(time.time() - self.t0, 2),
               'violations': len(unlisted), 'notes': self.notes}
